@@ -7,7 +7,9 @@
 
 #include <tlx/thread_pool.hpp>
 
+#include <iostream>
 #include <memory>
+#include <stdexcept>
 
 namespace {
 
@@ -29,11 +31,14 @@ void generate(Rng& r, Workload& w, int tier) {
     int maxjobs = tier ? 40 : 14;
     int njobs = int(r.range(0, maxjobs));
     int rounds = scen ? 1 : int(r.range(1, 3));
+    const bool throwing_run = r.chance(1, 4);
     for (int rd = 0; rd < rounds; ++rd) {
         int k = rounds == 1 ? njobs : int(r.range(0, njobs / rounds + 1));
         for (int i = 0; i < k; ++i) {
-            if (i > 0 && r.chance(1, 2)) w.ops.push_back({OP_CHILD, int64_t(r.below(8)), r.chance(1, 4) ? 1 : 0});
-            else w.ops.push_back({OP_ROOT, outside ? int64_t(r.below(uint64_t(outside + 1))) : 0});
+            // in one run out of four some jobs end by throwing a std::exception (which the pool catches)
+            const int64_t thr = (throwing_run && r.chance(1, 3)) ? 1 : 0;
+            if (i > 0 && r.chance(1, 2)) w.ops.push_back({OP_CHILD, int64_t(r.below(8)), r.chance(1, 4) ? 1 : 0, thr});
+            else w.ops.push_back({OP_ROOT, outside ? int64_t(r.below(uint64_t(outside + 1))) : 0, 0, thr});
         }
         if (rd + 1 < rounds) w.ops.push_back({OP_ROUND});
     }
@@ -52,6 +57,7 @@ struct Job {
     bool terminates;  // calls terminate() at its end
     std::vector<int> children;
     std::vector<int> dtor_children;   // enqueued when the job's closure is destroyed (continuation token)
+    bool throws = false;              // ends by throwing a std::exception (the pool catches and logs it)
 };
 
 struct Ctx {
@@ -102,6 +108,7 @@ void run_job(Ctx* cx, int j) {
         sim::event(EV_TERM_RET, j);
     }
     sim::event(EV_JOB_END, j);
+    if (jb.throws) throw std::runtime_error("job ends with an exception");
 }
 
 void execute(const Workload& w, Result& res) {
@@ -124,10 +131,12 @@ void execute(const Workload& w, Result& res) {
         int have = int(cx.jobs.size()) - first;
         if (code == OP_ROOT || (code == OP_CHILD && have == 0)) {
             Job j{int(cx.jobs.size()), round, -1, code == OP_ROOT ? int(sim::modn(a, outside + 1)) : 0, false, {}, {}};
+            j.throws = op.size() > 3 && sim::modn(op[3], 2) == 1;
             cx.jobs.push_back(j);
         } else if (code == OP_CHILD) {
             int par = first + int(sim::modn(a, have));
             Job j{int(cx.jobs.size()), round, par, 0, false, {}, {}};
+            j.throws = op.size() > 3 && sim::modn(op[3], 2) == 1;
             // continuation enqueued by the destructor of the parent's closure: only where every job is
             // guaranteed to complete before the pool goes away (no terminate, no abrupt destruction)
             const bool by_dtor = !scen_term && !abrupt && op.size() > 2 && sim::modn(op[2], 2) == 1;
@@ -290,10 +299,16 @@ void execute(const Workload& w, Result& res) {
     }
     if (nj == 0) res.probe("no_jobs");
     res.probe("jobs", uint64_t(nj));
+    uint64_t thr = 0;
+    for (auto& jb : cx.jobs) thr += jb.throws ? 1 : 0;
+    if (thr) res.probe("jobs_ending_with_an_exception", thr);
 }
 
 const sim::HarnessDef def = {"C10", true, 30, generate, execute, nullptr};
 
 } // namespace
 
-int main(int argc, char** argv) { return sim::worker_main(argc, argv, def); }
+int main(int argc, char** argv) {
+    std::cerr.rdbuf(nullptr);   // the pool logs caught job exceptions to std::cerr: not wanted in the workers' report stream
+    return sim::worker_main(argc, argv, def);
+}
